@@ -1,6 +1,7 @@
 import RxModel.Sched.Core
 import RxModel.Ops.Init
 import RxModel.Ops.Source
+import RxModel.Ops.Multi
 /-
   Linear pipelines with scheduler-using operators on the virtual clock:
   a source, then stages (source side first), then the probe.
@@ -28,6 +29,7 @@ inductive TSrc where
   | cold (s : Src)
   | interval (delay : Option Nat) (period : Nat)   -- interval / interval_at
   | timer (v : Val) (dur : Nat)
+  | iterc (n : Nat)                                  -- from_iter over a counting iterator 0..n
 
 /-- One operator of the chain with its per-subscription state. -/
 inductive Stage where
@@ -46,6 +48,9 @@ inductive Stage where
   | throttleW (d : Nat) (edge : Edge) (alive : Bool) (trailing : Option Val)
   /-- buffer_with_time / buffer_with_count_and_time: the shared buffer cell and the flush task. -/
   | bufTime (d : Nat) (count : Option Nat) (alive : Bool) (data : List Val) (task : Option TaskId)
+  /-- a two-input operator whose second input (other / from / notifier / sampler)
+      is its own source: the shared cell, that source, its Subscriber slot / task handle. -/
+  | op2n (st : St2) (nsrc : TSrc) (nAlive : Bool) (nTask : Option TaskId)
 
 /-- `is_finished` of the observer facing the head of `stages`. -/
 def fin : List Stage → Bool
@@ -58,6 +63,7 @@ def fin : List Stage → Bool
   | .throttle _ _ alive _ _ :: r => !alive || fin r
   | .throttleW _ _ alive _ :: r => !alive || fin r
   | .bufTime _ _ alive _ _ :: r => !alive || fin r
+  | .op2n st _ _ _ :: r => st.finished .a (fin r)
 
 def flushBuf (data : List Val) : List Notif :=
   if data.isEmpty then [] else [.next (Val.ofList data)]
@@ -108,6 +114,8 @@ def Stage.onNotif (st : Stage) (j : Nat) (n : Notif) (s : Sched) : Stage × List
         if alive then (match tr with | some v => [.next v] | none => []) ++ [.complete] else [],
         match handler with | some h => s.cancel h | none => s)
   | .throttleW d edge alive tr, _ => (.throttleW d edge alive tr, [], s)   -- unreachable (no re-entrancy)
+  -- two-input cell: what arrives through the chain is its first input -----------------
+  | .op2n st ns na nt, n => let (st', out) := st.step .a n; (.op2n st' ns na nt, out, s)
   -- buffer_with_time / buffer_with_count_and_time -----------------------------------
   | .bufTime d cnt alive data task, .next v =>
       if alive then
@@ -162,6 +170,7 @@ structure TW where
   terminated : List Nat := []       -- subjects whose observer list was taken
   subscribed : Bool := false        -- the case's `sub` has happened
   unsubscribed : Bool := false      -- … and its `unsub`
+  pulls : Nat := 0                  -- items pulled from the counting iterator (`iterc`)
   log : List Notif := []
 
 namespace TW
@@ -191,6 +200,40 @@ def subscribeSource (w : TW) : TW :=
   | .timer v dur =>
       let (s1, h) := w.sched.scheduleOnce (.timerSrc v) (some dur)
       { w with sched := s1, srcTask := some h }
+  | .iterc n =>
+      -- after `fix: from_iter … is_finished`: pull while the observer is not finished
+      let rec loop (fuel k : Nat) (w : TW) : TW :=
+        match fuel with
+        | 0 => w
+        | fuel + 1 =>
+          if fin w.stages then w
+          else if k < n then loop fuel (k + 1) ({ w with pulls := w.pulls + 1 }.push 0 [.next (.int k)])
+          else w.push 0 [.complete]
+      loop (n + 1) 0 w
+
+/-- Deliver notifications to the second input of the two-input cell at stage `j`. -/
+def pushB (w : TW) (j : Nat) (ns : List Notif) : TW :=
+  match w.stages[j]? with
+  | some (.op2n st nsrc na nt) =>
+      let (st', out) := st.run .b ns
+      (w.setStage j (.op2n st' nsrc na nt)).push (j + 1) out
+  | _ => w
+
+/-- Subscribe the second input of the two-input cell at stage `j`. -/
+def subscribeNotifier (w : TW) (j : Nat) : TW :=
+  match w.stages[j]? with
+  | some (.op2n st nsrc _ nt) =>
+      match nsrc with
+      | .hot _ => w.setStage j (.op2n st nsrc true nt)
+      | .cold s => w.pushB j s.emit
+      | .interval delay period =>
+          let (s1, h) := w.sched.scheduleRepeat (.tickN j) period none (delay.getD period)
+          { w with sched := s1 }.setStage j (.op2n st nsrc false (some h))
+      | .timer v dur =>
+          let (s1, h) := w.sched.scheduleOnce (.emit j (.next v)) (some dur)   -- not generated
+          { w with sched := s1 }.setStage j (.op2n st nsrc false (some h))
+      | .iterc _ => w
+  | _ => w
 
 /-- `actual_subscribe` of the stages below index `j` (stage j-1 first, then j-2 …),
     then of the source.  A subscribe_on / delay_subscription stage schedules the
@@ -205,6 +248,10 @@ def subscribeFrom (w : TW) : Nat → TW
     | some (.subscribeOn delay _) =>
         let (s1, h) := w.sched.scheduleOnce (.subscribe j) delay
         { w with sched := s1 }.setStage j (.subscribeOn delay (some h))
+    | some (.op2n st _ _ _) =>
+        match st.firstSide with
+        | .a => (subscribeFrom w j).subscribeNotifier j
+        | .b => subscribeFrom (w.subscribeNotifier j) j
     | _ => subscribeFrom w j
 
 /-- The user body of a task. `k` is the task running it. -/
@@ -238,12 +285,19 @@ def runBody (w : TW) (b : Body) : TW :=
   | .timerSrc v => w.push 0 [.next v, .complete]
   | .tick => w   -- handled by `runTick`
   | .bufTick _ => w
+  | .tickN _ => w
 
 /-- A RepeatTask tick: returns the new world and whether the task continues. -/
 def runTick (w : TW) (b : Body) (seq : Nat) : TW × Bool :=
   match b with
   | .tick =>
       if fin w.stages then (w, false) else (w.push 0 [.next (.int seq)], true)
+  | .tickN j =>
+      match w.stages[j]? with
+      | some (.op2n st _ _ _) =>
+          if st.finished .b (fin (w.stages.drop (j + 1))) then (w, false)
+          else (w.pushB j [.next (.int seq)], true)
+      | _ => (w, false)
   | .bufTick j =>
       match w.stages[j]? with
       | some (.bufTime d cnt alive data t) =>
@@ -316,6 +370,11 @@ def unsubFrom (w : TW) : Nat → TW
     | some (.bufTime _ _ _ _ (some h)) =>
         -- ZipSubscription(handle, source): the flush task first
         unsubFrom { w with sched := w.sched.cancel h } j
+    | some (.op2n st nsrc _ nt) =>
+        -- ZipSubscription(first input, second input)
+        let w1 := unsubFrom w j
+        let s := match nt with | some h => w1.sched.cancel h | none => w1.sched
+        { w1 with sched := s }.setStage j (.op2n st nsrc false nt)
     | _ => unsubFrom w j       -- op1, throttle: the source's subscription
 
 /-- `is_closed()` of the subscription returned for stages `0..j` and the source. -/
@@ -340,11 +399,35 @@ def isClosedFrom (w : TW) : Nat → Bool
     | some (.subscribeOn _ none) => false
     | some (.debounce _ _ _ handler) => isClosedFrom w j && handler.isNone
     | some (.bufTime _ _ _ _ (some h)) => w.sched.handleClosed h && isClosedFrom w j
+    | some (.op2n _ nsrc na nt) =>
+        isClosedFrom w j &&
+          (match nsrc, nt with
+           | .hot _, _ => !na
+           | .cold (.create _), _ => !na
+           | .cold _, _ => true
+           | _, some h => w.sched.handleClosed h
+           | _, none => false)
     | _ => isClosedFrom w j
 
 /-- What the case's handle answers (it is consumed by `unsub`). -/
 def isClosed (w : TW) : Bool :=
   if !w.subscribed || w.unsubscribed then true else isClosedFrom w w.stages.length
+
+/-- A subject emission reaching the notifier inputs (stage index below `k`) fed by subject `i`. -/
+def deliverNotifiers (w : TW) (i : Nat) (n : Notif) : Nat → TW
+  | 0 => w
+  | k + 1 =>
+    let w1 := deliverNotifiers w i n k
+    match w1.stages[k]? with
+    | some (.op2n st (.hot j) na nt) =>
+        if i = j && na then
+          match n with
+          | .next _ => w1.pushB k [n]
+          | _ =>
+            if st.finished .b (fin (w1.stages.drop (k + 1))) then w1
+            else (w1.setStage k (.op2n st (.hot j) false nt)).pushB k [n]
+        else w1
+    | _ => w1
 
 inductive Ev where
   | sub
@@ -363,16 +446,20 @@ def step (w : TW) : Ev → TW
       if w.terminated.contains i then w
       else
         let w1 := if n.isTerm then { w with terminated := i :: w.terminated } else w
-        match w.src with
-        | .hot j =>
-          if i = j && w.srcSubscribed && w.srcAlive then
-            match n with
-            | .next _ => w1.push 0 [n]
-            | _ =>
-              -- `filter(|o| !o.p_is_closed())`, then the slot is taken
-              if fin w.stages then w1 else { w1 with srcAlive := false }.push 0 [n]
-          else w1
-        | _ => w1
+        -- the subscribers of subject i in subscription order: the chain's source is subscribed
+        -- before the notifier of an a-first cell and after the notifier of a b-first cell; the
+        -- generators never put the same subject in both positions
+        let w2 := match w.src with
+          | .hot j =>
+            if i = j && w.srcSubscribed && w.srcAlive then
+              match n with
+              | .next _ => w1.push 0 [n]
+              | _ =>
+                -- `filter(|o| !o.p_is_closed())`, then the slot is taken
+                if fin w.stages then w1 else { w1 with srcAlive := false }.push 0 [n]
+            else w1
+          | _ => w1
+        deliverNotifiers w2 i n w2.stages.length
   | .unsub =>
       if w.subscribed && !w.unsubscribed then { unsubFrom w w.stages.length with unsubscribed := true }
       else w
